@@ -125,6 +125,14 @@ bench("orphan", ["A", "B"],
       ports={"A": [out(conn("B")), out(conn("ORPHAN"))]},
       procs=[ev("A", 1), ev("A", 1)])
 
+# Saturated orphan mailbox: more messages than it holds, so that a sender is still suspended when the run stalls; the
+# report counts the messages that were queued, not the one that never was.
+bench("orphan2", ["A", "B"],
+      prog=[[send(2, 2), send(1, 2), send(2, 2), send(2, 2), send(2, 2)],
+            [NOP]],
+      ports={"A": [out(conn("B")), out(conn("ORPHAN"))]},
+      procs=[ev("A", 1)], caps={"ORPHAN": 2})
+
 # Hierarchy: P has a child P.c added while P is built; init scripts send events to each other.
 bench("hier", ["P", "P.c", "Q"],
       prog=[[send(1, 2)],     # 1: init of P: event to child
